@@ -1147,7 +1147,7 @@ def ensure_tab(ctx):
         fcntl.flock(lock, fcntl.LOCK_UN)
 
 
-def run(ctx):
+def _run(ctx):
     quick = ctx.tier == 'quick'
     if not ensure_tab(ctx):
         return
@@ -1182,3 +1182,16 @@ def run(ctx):
                     'Univariate, Bivariate, GaussianMultivariate and get_instance (tied by the history correspondence and the AST facts)',
                     'tools/vf/lifecycle.py: recorders at the scipy/numpy boundary, canonicalisation of observations, oracle tables',
                     'scipy/numpy results enter the model as table values (no claim about scipy itself)']
+
+
+def run(ctx):
+    """the check proper, then the edge-input oracle for unfitted models (always, also after a broken proof)"""
+    from .. import extra_oracles
+    try:
+        _run(ctx)
+    finally:
+        try:
+            extra_oracles.unfitted_edge_inputs(ctx)
+        except Exception as ex:
+            ctx.obligation('oracle:extra:raised', False, 'correspondence', repr(ex))
+            ctx.violation('oracle:extra:raised:' + type(ex).__name__, 'edge-input oracle raised ' + repr(ex), {'repro': '# see tools/vf/extra_oracles.py'})
